@@ -9,8 +9,7 @@ implementation's answer before ` | ` is parsed into `Spec.UpMon.Ans`, `Spec.UpMo
 -/
 namespace Percival.Driver.Upmon
 open Percival.Driver Percival.Spec.UpMon
-open Percival.Driver.Dsmon (natField)
-open Percival.Driver.Afmon (numOf)
+open Percival.Driver.Afmon (kvOf natField numOf)
 
 def parseKind : List String → Kind
   | ["failat", _] | ["failfrom", _] | ["failoff"] => .sched
@@ -27,7 +26,7 @@ def parseAns (toks : List String) : Ans :=
     { head := parseHead h
       ntoks := toks.length
       rf := natField toks "rf"
-      bad := toks.find? (·.startsWith "BAD=")
+      bad := toks.find? fun t => (kvOf t "BAD").isSome
       live := numOf "live" toks[1]?
       leaked := numOf "leaked" toks[2]? }
 
